@@ -290,3 +290,97 @@ def determine_format_table(index):
 
 UNITS = [GetDimension(), BinaryToHex(), PngDimensions(), JpegDimensions(), ImageDimensions(), EncodeSingleFigure()]
 TABLES = [TableUnit("determine_image_format", determine_format_table)]
+
+
+# ---- figure.py::rtf_read_figure ---------------------------------------------------------------------------------------------------
+from pyvc.interp import LoopSpec as _LoopSpec
+from pyvc.seqs import safe_view as _safe_view, seq_view as _seq_view, as_symlist
+from pyvc.values import to_z3
+from z3 import Exists
+
+FILE_EXISTS = z3.Function("image_file_exists", StrSort, z3.BoolSort())
+FILE_BYTES = z3.Function("image_file_bytes", StrSort, z3.IntSort())          # id of the byte string stored at that path
+FILE_FORMAT = z3.Function("image_format_of_path", StrSort, StrSort)
+
+
+class ReadFigure(Contract):
+    """rtf_read_figure(paths): for a list of paths, one (bytes, format) pair per path **in the given order**, the bytes being the
+    file's content and the format the one determined for that path; FileNotFoundError exactly when some path does not exist (C16:
+    figures appear in the given order and carry the file's exact bytes)."""
+    target = "figure.py::rtf_read_figure"
+    serves = ["C16"]
+    models = [StrModel()]
+    variants = ["list", "single"]
+
+    def setup(self, c):
+        if c.variant == "single":
+            p0 = c.fresh("path", T.Str)
+            c.bind("file_paths", p0)
+            paths = c.alloc(ListObj(items=[p0], fresh=False))
+        else:
+            paths = c.fresh("paths", T.List(T.Str))
+            c.bind("file_paths", paths)
+        c.v.update(paths=paths)
+
+    @property
+    def raises(self):
+        def r(c, out):
+            n, g = as_symlist(out.state, out.state.obj(c.v["paths"]))
+            k = z3.Int("k")
+            return {"only_when_some_file_is_missing": Exists([k], And(0 <= k, k < to_z3(n), Not(FILE_EXISTS(to_z3(norm_str(g(k)))))))}
+        return {"FileNotFoundError": r}
+
+    @property
+    def handlers(self):
+        def h_path(I, st, args, kwargs, node):
+            return ("path", to_z3(norm_str(args[0])))
+
+        def h_exists(I, st, args, kwargs, node):
+            p = I.lookup(st, "path")
+            return FILE_EXISTS(p[1])
+
+        def h_format(I, st, args, kwargs, node):
+            I.ctx.assume_lib("_determine_image_format(path): a function of the path (table unit determine_image_format)")
+            return FILE_FORMAT(args[0][1])
+
+        def h_read(I, st, args, kwargs, node):
+            I.ctx.assume_lib("_read_image_data(path): the bytes stored at that path (open(path, 'rb').read())")
+            return FILE_BYTES(args[0][1])
+
+        def h_isinstance(I, st, args, kwargs, node):
+            return NotImplemented
+        return {"Path": h_path, "path.exists": h_exists, "_determine_image_format": h_format, "_read_image_data": h_read}
+
+    def setup_loops(self, c):
+        self._v = v = c.v
+
+        def inv(vv):
+            st = vv.state
+            n, g = as_symlist(st, st.obj(v["paths"]))
+            dn, dg = _safe_view(st, vv.obj(vv.figure_data), IntVal(-1))
+            fn, fg = _safe_view(st, vv.obj(vv.figure_formats), lit(""))
+            k = z3.Int("k")
+            pk = lambda j: to_z3(norm_str(g(j)))
+            return {"range": And(0 <= vv.i, vv.i <= to_z3(n)),
+                    "one_entry_per_path_so_far": And(to_z3(dn) == vv.i, to_z3(fn) == vv.i),
+                    "entries_in_path_order": ForAll([k], Implies(And(0 <= k, k < vv.i), And(to_z3(dg(k)) == FILE_BYTES(pk(k)), to_z3(fg(k)) == FILE_FORMAT(pk(k)),
+                                                                                         FILE_EXISTS(pk(k)))))}
+        self.loops = {0: _LoopSpec(inv=inv, havoc={"figure_data": T.List(T.Int), "figure_formats": T.List(T.Str)})}
+
+    def ensures(self, c, out):
+        st = out.state
+        res = out.value
+        if not (isinstance(res, tuple) and len(res) == 2):
+            return {"returns_data_and_formats": z3.BoolVal(False)}
+        n, g = as_symlist(st, st.obj(c.v["paths"]))
+        dn, dg = _seq_view(st, res[0])
+        fn, fg = _seq_view(st, res[1])
+        k = z3.Int("k")
+        pk = lambda j: to_z3(norm_str(g(j)))
+        return {"C16.one_figure_per_path_in_the_given_order": And(to_z3(dn) == to_z3(n), to_z3(fn) == to_z3(n),
+                                                                  ForAll([k], Implies(And(0 <= k, k < to_z3(n)), And(to_z3(dg(k)) == FILE_BYTES(pk(k)),
+                                                                                                                      to_z3(fg(k)) == FILE_FORMAT(pk(k)))))),
+                "C16.every_file_existed": ForAll([k], Implies(And(0 <= k, k < to_z3(n)), FILE_EXISTS(pk(k))))}
+
+
+UNITS.append(ReadFigure())
